@@ -506,7 +506,10 @@ impl Planner {
 
         let operator: Box<dyn Operator> = if is_variable_length {
             // Use VariableLengthExpandOperator for multi-hop paths
-            let max_hops = expand.max_hops.unwrap_or(expand.min_hops + 10); // Default max if unlimited
+            // Default max if unlimited (computed lazily and saturating: min_hops comes from the query text)
+            let max_hops = expand
+                .max_hops
+                .unwrap_or_else(|| expand.min_hops.saturating_add(10));
             let mut expand_op = VariableLengthExpandOperator::new(
                 Arc::clone(&self.store),
                 input_op,
